@@ -197,15 +197,14 @@ class Outcome(object):
 
     @property
     def accept(self):
-        return any(k == "effect" or (k in ("return", "end") and not fail) for (k, v, e, loc, fail) in self.terminals)
+        return any(t[0] == "effect" or (t[0] in ("return", "end") and not t[4]) for t in self.terminals)
 
     def fail_errnos(self):
-        return set(e for (k, v, e, loc, fail) in self.terminals if k == "return" and fail)
+        return set(t[2] for t in self.terminals if t[0] == "return" and t[4])
 
     def first_accept(self):
         for t in self.terminals:
-            k, v, e, loc, fail = t
-            if k == "effect" or not fail:
+            if t[0] == "effect" or not t[4]:
                 return t
         return None
 
@@ -218,8 +217,9 @@ class PathEval(object):
     'callee did not fail', so that `if (g(...) < 0) return -1;` is followed with the right errno."""
     MAXSTATES = 20000
 
-    def __init__(self, program, func, env, is_effect=None, pure=PURE, depth=0, fail_value=None, memo=None, maxstates=None, through_effects=False):
-        self.through = through_effects    # sub-evaluation of a callee: note effects but keep exploring
+    def __init__(self, program, func, env, is_effect=None, pure=PURE, depth=0, fail_value=None, memo=None, maxstates=None, through_effects=False, dirty_paths=False):
+        self.through = through_effects or dirty_paths   # note effects but keep exploring
+        self.dirty_paths = dirty_paths     # remember per path whether an effect happened: terminals carry (.., dirty, first effect loc)
         self.P = program
         self.f = func
         self.env0 = dict(env)
@@ -291,7 +291,7 @@ class PathEval(object):
     def run(self):
         f = self.f
         out = Outcome()
-        start = (f.entry, 0, tuple(sorted(self.env0.items())), None)
+        start = (f.entry, 0, tuple(sorted(self.env0.items())), None, None)
         seen = set([start])
         work = [start]
 
@@ -303,7 +303,8 @@ class PathEval(object):
         while work:
             if len(seen) > self.MAXSTATES:
                 raise AnalysisBroken("partial evaluation of %s exceeded %d states" % (f.name, self.MAXSTATES))
-            b, i0, envt, err = work.pop()
+            b, i0, envt, err, dirty = work.pop()
+            self._dirty = dirty
             env = dict(envt)
             blk = f.blocks[b]
             stop = False
@@ -311,7 +312,19 @@ class PathEval(object):
             i = i0
             while i < len(elems):
                 n = f.nodes[elems[i]]
+                nterm = len(out.terminals)
                 r = self.step(n, env, err, out)
+                if self.dirty_paths and len(out.terminals) > nterm:
+                    # effects recorded by step(): mark this path dirty, drop the global terminal
+                    keep = []
+                    for t in out.terminals[nterm:]:
+                        if t[0] == "effect":
+                            if dirty is None:
+                                dirty = t[3]
+                                self._dirty = dirty
+                        else:
+                            keep.append(t + (dirty,))
+                    out.terminals[nterm:] = keep
                 i += 1
                 if r == "stop":
                     stop = True
@@ -323,7 +336,7 @@ class PathEval(object):
                     for upd, e2 in r[1]:
                         env2 = dict(env)
                         env2.update(upd)
-                        push((b, i, tuple(sorted(env2.items())), err if e2 == "KEEP" else e2))
+                        push((b, i, tuple(sorted(env2.items())), err if e2 == "KEEP" else e2, dirty))
                     stop = True
                     break
             if stop:
@@ -366,9 +379,9 @@ class PathEval(object):
                 nxt = [s for s in succs if s is not None]
             # drop per-call bindings when leaving the block's expression context? keep: they are keyed by node id
             for s in nxt:
-                push((s, 0, tuple(sorted(env.items())), err))
+                push((s, 0, tuple(sorted(env.items())), err, dirty))
             if f.exit in nxt and not self._ends_with_return(blk):
-                out.terminals.append(("end", None, err, "%s:end" % f.name, False))
+                out.terminals.append(("end", None, err, "%s:end" % f.name, False) + ((dirty,) if self.dirty_paths else ()))
         out.states = len(seen)
         return out
 
